@@ -7,6 +7,8 @@
 //   - expiry-snapshot: the holder is cut off, the lock expires on the primary, the primary commits and trims its
 //     log, the link heals and the former holder catches up through a snapshot;
 //   - expiry-frame: the same without the trimming (it catches up through ordinary transaction files);
+//   - release-without-primary: the holder gives the lock back while there is no primary to tell (it went away and
+//     comes back later);
 //   - failed-promotion: no halt lock at all - the replica wins the lease when the primary is demoted, but the step
 //     right after the acquisition (reading the cluster ID from the lease service) fails every time, so it gives the
 //     lease back each time and the former primary takes over again.
@@ -33,7 +35,7 @@ import (
 )
 
 type HaltCase struct {
-	Halt string `json:"halt_kind"` // acquire-timeout | expiry-snapshot | expiry-frame
+	Halt string `json:"halt_kind"` // acquire-timeout | expiry-snapshot | expiry-frame | failed-promotion | release-without-primary
 	WAL  bool   `json:"wal"`
 }
 
@@ -200,6 +202,30 @@ func runHalt(t *testing.T, c HaltCase) (res HaltResult) {
 			if !c.WAL {
 				rd.DropRead(false) // a rollback-mode writer could not get past the reader's SHARED lock
 			}
+		case "release-without-primary":
+			if err := acquire(); err != nil {
+				viol("C13/acquire-failed", "acquire: %v", err)
+				return
+			}
+			_ = P.Stop()
+			noPrimary := func() bool { _, info := R.Store.PrimaryInfo(); return info == nil }
+			if !lab.WaitFor(30*time.Second, noPrimary) {
+				res.Harness = "the replica still sees a primary"
+				return
+			}
+			// the application gives the lock back: the primary cannot be told, the call may report an error, but the
+			// handle (and with it the application) holds the lock no more
+			uerr := lockFile.Unlock(uint64(litefs.LockTypeHalt), uint64(litefs.LockTypeHalt))
+			_ = lockFile.Close()
+			res.Class = fmt.Sprintf("unlock-error=%v ", uerr != nil)
+			if err := P.Start(); err != nil || cl.WaitPrimary(20*time.Second) == nil {
+				res.Harness = fmt.Sprintf("restart P: %v", err)
+				return
+			}
+			if ok, why := cl.WaitConverged(30*time.Second, nil); !ok {
+				viol("C01/no-convergence/"+c.Halt, "the former holder did not reconnect to the restarted primary: %s", why)
+				return
+			}
 		case "expiry-snapshot", "expiry-frame":
 			if err := acquire(); err != nil {
 				viol("C13/acquire-failed", "acquire: %v", err)
@@ -290,7 +316,7 @@ func haltPart(run interface {
 }, pool poolRunner) map[string]any {
 	var cases []HaltCase
 	for _, wal := range []bool{false, true} {
-		for _, k := range []string{"acquire-timeout", "expiry-snapshot", "expiry-frame", "failed-promotion"} {
+		for _, k := range []string{"acquire-timeout", "expiry-snapshot", "expiry-frame", "failed-promotion", "release-without-primary"} {
 			cases = append(cases, HaltCase{Halt: k, WAL: wal})
 		}
 	}
